@@ -741,6 +741,20 @@ func (e *kvElection) StopWithContext(ctx context.Context, opts StopOptions) erro
 		close(done)
 	}()
 
+	// Leadership has already been given up above; when the wait is abandoned the
+	// demotion callback is still owed (nothing else will run it).
+	demoteOnAbort := func() {
+		if !wasLeader {
+			return
+		}
+		e.mu.RLock()
+		onDemote := e.onDemote
+		e.mu.RUnlock()
+		if onDemote != nil {
+			go onDemote()
+		}
+	}
+
 	select {
 	case <-done:
 	case <-time.After(timeout):
@@ -750,6 +764,7 @@ func (e *kvElection) StopWithContext(ctx context.Context, opts StopOptions) erro
 				zap.Duration("timeout", timeout),
 			)...,
 		)
+		demoteOnAbort()
 		return fmt.Errorf("shutdown timeout exceeded: %v", timeout)
 	case <-ctx.Done():
 		log := e.getLogger()
@@ -758,6 +773,7 @@ func (e *kvElection) StopWithContext(ctx context.Context, opts StopOptions) erro
 				zap.Error(ctx.Err()),
 			)...,
 		)
+		demoteOnAbort()
 		return ctx.Err()
 	}
 
